@@ -821,11 +821,25 @@ class Interp:
         for k in cells:
             items.append((k[0] - soff, k[1], so.cells[k]))
             covered.update(range(k[0], k[0] + k[1]))
-        for i in range(n):
-            if soff + i not in covered:
-                b = so.default_byte(soff + i)
-                if b is None: b = self.fresh('uninit', 8)
-                so.cells[(soff + i, 1)] = b; items.append((i, 1, b))
+        runs = []                     # long runs of bytes that only exist as a range fill / zero default are copied as range fills
+        i = 0
+        while i < n:
+            if soff + i in covered: i += 1; continue
+            b = so.default_byte(soff + i)
+            j = i + 1
+            if b is not None and not isinstance(b, Sym):
+                while j < n and soff + j not in covered and so.default_byte(soff + j) == b: j += 1
+            if j - i > 64: runs.append((i, j, b)); i = j; continue
+            for k in range(i, j):
+                bb = so.default_byte(soff + k)
+                if bb is None: bb = self.fresh('uninit', 8)
+                so.cells[(soff + k, 1)] = bb; items.append((k, 1, bb))
+            i = j
+        for (a, b_, v) in runs:
+            for kk in [kk for kk in do.cells if kk[0] < doff + b_ and doff + a < kk[0] + kk[1]]:
+                if kk[0] < doff + a or kk[0] + kk[1] > doff + b_: self.split_cell(do, kk)
+            for kk in [kk for kk in do.cells if kk[0] >= doff + a and kk[0] + kk[1] <= doff + b_]: del do.cells[kk]
+            do.fills.append((doff + a, doff + b_, v))
         for (o, sz, v) in items: self.store_bytes(do, doff + o, sz, v)
 
     def memset(self, addr, v, n):
